@@ -11,9 +11,9 @@ H5_MODS = ['harness', 'HDF5File', 'ElectricField', 'PhaseSpace', 'Impedance', 'K
 H5_LIBS = ('-lfftw3f', '-lfftw3', '-lboost_filesystem', '-lboost_system', '-L/usr/lib/x86_64-linux-gnu/hdf5/serial', '-lhdf5_cpp', '-lhdf5')
 C_LIGHT = Fraction(2.99792458e8)
 def h5_build(): return B.build('h_hdf5.cpp', H5_TUS, hdf5=1, libs=H5_LIBS)
-def h5_world(bld, n, nb, N, npart):
+def h5_world(bld, n, nb, N, npart, Nr=0):
     os.environ['XDG_DATA_HOME'] = os.path.join(bld['dir'], 'xdg'); os.makedirs(os.environ['XDG_DATA_HOME'], exist_ok=True)
-    return take_snapshot(bld, 'h%d_%d_%d_%d' % (n, nb, N, npart), [n, nb, N, npart])
+    return take_snapshot(bld, 'h%d_%d_%d_%d' % (n, nb, N, npart) + ('_%d' % Nr if Nr else ''), [n, nb, N, npart] + ([Nr] if Nr else []))
 
 def symf(ex, st, addr, names, bits=32):
     out = []
